@@ -167,4 +167,26 @@ theorem released_was_pending (g : Graph) (s : St) (x : Name) (t : Target)
   · obtain ⟨s', r, hs, ht⟩ := releaseAll_released_rel g s s.que x t h
     exact hs.todo x t (available_sub_todo g s' x t ht)
 
+
+/-! non-vacuity: chain 0 → 1 → 2 with value-level inputs (node 1 consumes value 0, node 2
+    consumes value 1); the root reports value 0 new for target 1: exactly node 1 is rescheduled. -/
+def chain : Graph :=
+  { kind := fun _ => .task
+    children := fun n => if n = 0 then [1] else if n = 1 then [2] else []
+    desc := fun n => if n = 0 then [0, 1, 2] else if n = 1 then [1, 2] else [n]
+    ancestry := fun n => if n = 1 then [0] else if n = 2 then [0, 1] else []
+    consumes := fun n => if n = 1 then [0] else if n = 2 then [1] else []
+    feedbackTo := fun _ => none
+    level := fun n => n }
+
+example : dependents chain 0 [0] = [1] ∧ fedBack chain [0] = [] := by decide +kernel
+
+example :
+    let s := run chain (St.init [1]) [.organize [0] none [1], .dispatch]
+    0 ∈ s.que ∧ affected chain s 1 1 = [1] ∧
+    ((reply chain s 0 1 .success 7 [0] true).1.node 1).todo = [1] ∧
+    ((reply chain s 0 1 .success 7 [0] true).1.node 2).todo = [] ∧
+    (reply chain s 0 1 .success 7 [0] true).1.que = [1] := by
+  decide +kernel
+
 end DawgieVerif.C02
